@@ -220,6 +220,25 @@ theorem C15_compact_oversubscribes_maxcores :
 theorem C15_scatter_hangs_maxcores : isDiverge (decode .scatter cfg21) = true := by decide
 theorem C15_balanced_hangs_maxcores : isDiverge (decode .balanced cfg21) = true := by decide
 
+/-- asymmetric machine: 3 sockets with one core each, the cores have 2, 4 and 3 PUs -/
+def tAsym1 : Topo := { nc := 3, pus := fun c => [2, 4, 3].getD c 1, socks := [1, 1, 1] }
+/-- asymmetric machine: 2 sockets × 2 cores, PUs per core 3,3 / 2,4 -/
+def tAsym2 : Topo := { nc := 4, pus := fun c => [3, 3, 2, 4].getD c 1, socks := [2, 2] }
+def cfgAsym (t : Topo) (n : Nat) : Cfg :=
+  { t := t, pm := fun _ => true, usePm := true, used := 0, maxCores := n, n := n }
+
+/-- numa-balanced on a machine whose cores differ in size: 6 threads on 9 PUs — the decoder
+    never returns (`get_number_of_core_pus(num_core)` lacks `core_offset`, socket 1 looks for
+    3 usable PUs on a core it believes to have 2). -/
+theorem C15_numa_hangs_asymmetric :
+    isDiverge (decode .numaBalanced (cfgAsym tAsym1 6)) = true := by decide
+
+/-- numa-balanced on a machine whose cores differ in size: 10 threads on 12 PUs — workers 5
+    and 7 are both bound to PU 6 (`pu % arity` wraps on the smaller core). -/
+theorem C15_numa_shares_pu_asymmetric :
+    affOf (decode .numaBalanced (cfgAsym tAsym2 10)) 5 = [6] ∧
+    affOf (decode .numaBalanced (cfgAsym tAsym2 10)) 7 = [6] := by decide
+
 /-! ## numa-balanced: what does hold -/
 
 theorem roundDiv_self (n p : Nat) (hp : 0 < p) : roundDiv (n * p) p = n := by
